@@ -1869,7 +1869,7 @@ EGLPNUM_TYPENAME_QSLIB_INTERFACE int EGLPNUM_TYPENAME_QSwrite_basis (
 
 CLEANUP:
 
-	EGLPNUM_TYPENAME_ILLlp_basis_free (basis);
+	EGLPNUM_TYPENAME_ILLlp_basis_free (&iB);
 	EG_RETURN (rval);
 }
 
